@@ -3,7 +3,8 @@ import json, os, subprocess, sys, time, re, shutil, hashlib
 
 VERIF = os.path.abspath(os.path.join(os.path.dirname(os.path.abspath(__file__)), ".."))
 SPEC = os.path.join(VERIF, "spec")
-HARNESS = os.path.join(VERIF, "harness")
+# development only (bin/mutants with MUT_REPO): a scratch copy of the harness whose path dependency is a scratch worktree
+HARNESS = os.environ.get("VERIF_HARNESS_DIR", os.path.join(VERIF, "harness"))
 WORK = os.path.join(VERIF, "work")
 EVID = os.path.join(VERIF, "evidence")
 REPLAYS = os.path.join(EVID, "replays")
@@ -613,7 +614,7 @@ def session_stage(ev, prop, tier, seed, timeout=3000):
     if r.nreplay == 0:
         raise ToolError("Session produced no histories (vacuous)")
     ev.add_tlc("Session", r, "invariants HistoryIndependent NoOpenCall, action property ReadsDoNotWrite")
-    mism, summary = run_replay("replay", ["--checks", "session"], cases, tier=tier)
+    mism, summary = run_replay("replay", ["--checks", "session"], cases, tier=tier, timeout=5400)
     ev.traces += summary["cases"]
     ev.evaluations += summary["cases"]
     ev.distinct_nontrivial += summary["distinct"]
@@ -626,6 +627,30 @@ def session_stage(ev, prop, tier, seed, timeout=3000):
                 ev.samples.append({"history": [(f"t{e['t']} write doc{e['op']['d']} {''.join(map(chr, e['wpath']))}" if e["ev"] == "write"
                                                 else f"t{e['t']} {e['ev']} {e['op']['e']}({qs[e['op']['q'] - 1]}) doc{e['op']['d']}") for e in c["hist"]]})
     return mism, cases
+
+
+def stress_stage(ev, prop, tier, seed, timeout=600):
+    """Stress.tla: the table (query, document) -> result, run by 8 real threads released together as the very first
+    thing a FRESH process does (first use of large indexes / long member names is concurrent); several processes."""
+    cases = os.path.join(WORK, f"{prop}-stress-{os.getpid()}.cases")
+    r = run_tlc("Stress", env={"VERIF_TIER": tier, "VERIF_SEED": str(seed)}, cases_path=cases, timeout=timeout, workers=2)
+    if r.nreplay != 1:
+        raise ToolError("Stress did not export its table")
+    ev.add_tlc("Stress", r, "invariant OneResultPerRow; exports the table of expected results per (query, document) row")
+    allm = []
+    procs = 12 if tier == "thorough" else 4
+    total = 0
+    for _ in range(procs):
+        mism, summary = run_replay("replay", ["--checks", "stress"], cases, tier=tier)
+        total += summary["checks"].get("stress_evaluations", 0)
+        allm += mism
+        if mism:
+            break
+    ev.traces += procs
+    ev.evaluations += total
+    ev.distinct_nontrivial += 16
+    ev.extra["stress"] = {"fresh_processes": procs, "threads_each": 8, "concurrent_evaluations": total}
+    return allm, cases
 
 
 def long_session_stage(ev, prop, tier, seed, timeout=1500):
